@@ -121,7 +121,7 @@ A traceback is the list of FRAME OBJECTS of its entries, outermost first, consec
 counted once (CPython adds a second entry for the same frame on `raise e` inside a handler). -/
 
 inductive LibFn where
-  | call | value | raiseIfError | reraise | cont | cog | unwrap
+  | call | value | raiseIfError | reraise | cont | cog | unwrap | ctxs
   deriving Repr, DecidableEq, Inhabited
 
 inductive Frame where
@@ -130,6 +130,8 @@ inductive Frame where
   | task (lv : Nat)           -- the generator frame of level `lv`
   | helper (lv k : Nat)       -- k-th nested plain function called from the body of level `lv`
   | orphan (lv : Nat)         -- a task created by level `lv` that nobody awaited while `lv` was alive
+  | hook (lv : Nat)           -- `pause()` / `resume()` of an AsyncContext entered by level `lv`, called by the scheduler
+  | hookHelper (lv k : Nat)   -- k-th nested plain function called from that hook
   deriving Repr, DecidableEq, Inhabited
 
 inductive Handler where
@@ -163,6 +165,16 @@ structure Err where
 def ownTok (lv : Nat) : Nat := 10 * lv + 1
 def newTok (lv : Nat) : Nat := 10 * lv + 2
 def bottomTok : Nat := 3
+def hookTok : Nat := 4
+
+/-- what the innermost level awaits -/
+inductive Bottom where
+  | none                              -- nothing
+  | errFuture                         -- `ErrorFuture(e)`, `e` never raised
+  /-- a batch item, inside `with ctx:`; the scheduler suspends the blocked task (`_pause_contexts`) or continues it after
+      the flush (`_resume_contexts`) and that hook of `ctx` raises from `h` nested helpers -/
+  | hook (onResume : Bool) (h : Nat)
+  deriving Repr, DecidableEq, Inhabited
 
 def fresh (tok : Nat) : Err := { tok := tok, hasTask := false, hasType := false, tb := [], cur := [] }
 
@@ -191,6 +203,18 @@ def acceptError (e : Err) (tb : List Frame) : Err :=
 def deepest : Frame → List Frame → Frame
   | f, [] => f
   | _, g :: gs => deepest g gs
+
+/-- frames of an exception raised by the context hook of level `lv` through `h` nested helper calls -/
+def hookFrames (lv h : Nat) : List Frame := .hook lv :: (List.range h).map (fun k => .hookHelper lv (k + 1))
+
+/-- async_task.py:391-424 `_pause_contexts` / `_resume_contexts` of level `lv` when a hook raises: inside the
+    `except BaseException as e:` clause `prepare_for_reraise(error)` captures the traceback (this library frame, the hook,
+    its helpers); AFTER the loop, outside any except clause, `self._accept_error(error)` runs with
+    `sys.exc_info()[2] = None` (modelled as the empty traceback).  The task is failed directly: nothing is thrown into
+    its generator (it is closed by `_computed`). -/
+def hookFails (lv h : Nat) : Err :=
+  let tb := .lib .ctxs :: hookFrames lv h
+  acceptError (prepareForReraise (unwind tb (fresh hookTok)) tb) []
 
 /-- how the error `e` of the awaited future arrives in the generator frame of level `lv`, and whether
     `_continue_on_generator` recorded the frame first (`self._frame = debug.get_frame(self._generator)`, line 219) -/
@@ -273,34 +297,44 @@ def finish (rule : FrameRule) (lv : Nat) (L : Level) (slot : Option Frame) : Opt
   | some h => let (e, line) := escape rule slot (unwind (raisedIn lv h) (fresh (ownTok lv))); (some e, line)
   | none => (none, slot.getD (.task lv))   -- `_frame` None, generator None: `str(self)`, which names the task
 
+/-- one level of the chain, given the finished run of the levels below it (`last`: there is no level below) -/
+def step (rule : FrameRule) (lv : Nat) (anc : List Frame) (L : Level) (last : Bool) (child : Run) : Run :=
+  let here := anc ++ [.task lv]       -- `AsyncTask.traceback()`: creator's list, then the own line
+  let evStart := Event.stack .start lv (here.map levelTok)
+  let evHandler := Event.stack .handler lv (here.map levelTok)
+  match child.out with
+  | none =>
+    let (o, line) := finish rule lv L none
+    { out := o, events := evStart :: child.events, lines := line :: child.lines }
+  | some e =>
+    let (e3, slot) := arrive L.await lv (!last) e
+    match L.handler with
+    | .pass =>
+      let (e', line) := escape rule slot e3
+      { out := some e', events := evStart :: child.events, lines := line :: child.lines }
+    | .bare | .named =>
+      let (e', line) := escape rule slot e3
+      { out := some e', events := evStart :: child.events ++ [evHandler], lines := line :: child.lines }
+    | .raiseNew h =>
+      let (e', line) := escape rule slot (unwind (raisedIn lv h) (fresh (newTok lv)))
+      { out := some e', events := evStart :: child.events ++ [evHandler], lines := line :: child.lines }
+    | .swallow =>
+      let (o, line) := finish rule lv L slot
+      { out := o, events := evStart :: child.events ++ [evHandler], lines := line :: child.lines }
+
+/-- the innermost level blocks on a batch item inside `with ctx:`; the hook fails the task from outside; its handler /
+    own raise never run; `_frame` stays None and the generator is closed: its line is `str(self)` -/
+def hookRun (lv : Nat) (anc : List Frame) (h : Nat) : Run :=
+  { out := some (hookFails lv h), events := [Event.stack .start lv ((anc ++ [Frame.task lv]).map levelTok)], lines := [Frame.task lv] }
+
 /-- run the levels `lv, lv+1, ...`; `anc` = `self.creator.traceback()` of level `lv` (all creators are suspended in
     their await, so their lines do not change meanwhile) -/
-def run (rule : FrameRule) (bottom : Bool) : Nat → List Frame → List Level → Run
-  | _, _, [] => { out := if bottom then some (fresh bottomTok) else none, events := [], lines := [] }
+def run (rule : FrameRule) (bottom : Bottom) : Nat → List Frame → List Level → Run
+  | _, _, [] => { out := if bottom == .errFuture then some (fresh bottomTok) else none, events := [], lines := [] }
   | lv, anc, L :: rest =>
-    let here := anc ++ [.task lv]       -- `AsyncTask.traceback()`: creator's list, then the own line
-    let child := run rule bottom (lv + 1) here rest
-    let evStart := Event.stack .start lv (here.map levelTok)
-    let evHandler := Event.stack .handler lv (here.map levelTok)
-    match child.out with
-    | none =>
-      let (o, line) := finish rule lv L none
-      { out := o, events := evStart :: child.events, lines := line :: child.lines }
-    | some e =>
-      let (e3, slot) := arrive L.await lv (!rest.isEmpty) e
-      match L.handler with
-      | .pass =>
-        let (e', line) := escape rule slot e3
-        { out := some e', events := evStart :: child.events, lines := line :: child.lines }
-      | .bare | .named =>
-        let (e', line) := escape rule slot e3
-        { out := some e', events := evStart :: child.events ++ [evHandler], lines := line :: child.lines }
-      | .raiseNew h =>
-        let (e', line) := escape rule slot (unwind (raisedIn lv h) (fresh (newTok lv)))
-        { out := some e', events := evStart :: child.events ++ [evHandler], lines := line :: child.lines }
-      | .swallow =>
-        let (o, line) := finish rule lv L slot
-        { out := o, events := evStart :: child.events ++ [evHandler], lines := line :: child.lines }
+    match rest, bottom with
+    | [], .hook _ h => hookRun lv anc h
+    | _, _ => step rule lv anc L rest.isEmpty (run rule bottom (lv + 1) (anc ++ [.task lv]) rest)
 
 /-- the exception as the synchronous caller of level 0 catches it (`AsyncDecorator.__call__` → `value()`) -/
 def callerView (e : Err) : List Frame := (unwind [.caller, .lib .call] (valueRaises e)).cur
@@ -320,7 +354,7 @@ def orphanEvents (lines : List Frame) : Nat → List Level → List Event
     let evs := orphanEvents lines (i + 1) rest
     if L.orphan then Event.stack StackKind.orphan i ((lines.take (i + 1) ++ [Frame.orphan i]).map levelTok) :: evs else evs
 
-def runTop (rule : FrameRule) (bottom : Bool) (levels : List Level) : List Event :=
+def runTop (rule : FrameRule) (bottom : Bottom) (levels : List Level) : List Event :=
   let r := run rule bottom 0 [] levels
   r.events ++ [resultEvent r.out] ++ orphanEvents r.lines 0 levels
 
@@ -332,17 +366,22 @@ def tracebackOf (line : Nat → Frame) : Nat → List Frame
 /-! ### reference semantics: which exception reaches the awaiter and the frames it must show -/
 
 /-- sequential reading of the chain from level `lv` down: (exception token, user frames from level `lv` to the raiser) -/
-def ref (bottom : Bool) : Nat → List Level → Option (Nat × List Frame)
-  | _, [] => if bottom then some (bottomTok, []) else none
+def refStep (lv : Nat) (L : Level) (child : Option (Nat × List Frame)) : Option (Nat × List Frame) :=
+  let ownR := L.own.map fun h => (ownTok lv, raisedIn lv h)
+  match child with
+  | none => ownR
+  | some (tok, fs) =>
+    match L.handler with
+    | .pass | .bare | .named => some (tok, .task lv :: fs)     -- crossing a level adds exactly its frame in front
+    | .raiseNew h => some (newTok lv, raisedIn lv h)
+    | .swallow => ownR
+
+def ref (bottom : Bottom) : Nat → List Level → Option (Nat × List Frame)
+  | _, [] => if bottom == .errFuture then some (bottomTok, []) else none
   | lv, L :: rest =>
-    let ownR := L.own.map fun h => (ownTok lv, raisedIn lv h)
-    match ref bottom (lv + 1) rest with
-    | none => ownR
-    | some (tok, fs) =>
-      match L.handler with
-      | .pass | .bare | .named => some (tok, .task lv :: fs)     -- crossing a level adds exactly its frame in front
-      | .raiseNew h => some (newTok lv, raisedIn lv h)
-      | .swallow => ownR
+    match rest, bottom with
+    | [], .hook _ h => some (hookTok, hookFrames lv h)     -- the traceback ends at the hook's (helper's) frame
+    | _, _ => refStep lv L (ref bottom (lv + 1) rest)
 
 /-- levels whose failure would put a foreign frame into `_frame` (see `C18_stack_orphan_counterexample`) -/
 def syncSafe (levels : List Level) : Bool :=
@@ -358,7 +397,7 @@ def firstWrong (levels : List Level) (expected got : List Nat) (i : Nat := 0) : 
   | [], [] => "ok"
   | _, _ => "stack-length"
 
-def glueEventClause (bottom : Bool) (levels : List Level) : Event → String
+def glueEventClause (bottom : Bottom) (levels : List Level) : Event → String
   | .stack .orphan lv ls =>
     let exp := List.range (lv + 1) ++ [1000 + lv]
     if ls == exp then "ok" else firstWrong levels exp ls
@@ -379,7 +418,7 @@ def Event.isResult : Event → Bool
   | .result _ => true
   | _ => false
 
-def glueClause (bottom : Bool) (levels : List Level) (events : List Event) : String :=
+def glueClause (bottom : Bottom) (levels : List Level) (events : List Event) : String :=
   let bad := (events.map (glueEventClause bottom levels)).filter (· != "ok")
   let nres := (events.filter Event.isResult).length
   match bad with
@@ -387,7 +426,7 @@ def glueClause (bottom : Bool) (levels : List Level) (events : List Event) : Str
   | [] => if nres == 1 then "ok" else "no-result"
 
 /-- `Spec.C18` (glue part) -/
-def glueSpec (bottom : Bool) (levels : List Level) (events : List Event) : Bool :=
+def glueSpec (bottom : Bottom) (levels : List Level) (events : List Event) : Bool :=
   glueClause bottom levels events == "ok"
 
 /-! ## 3. str / repr / dump as total functions of an abstract lifecycle state -/
